@@ -755,6 +755,7 @@ fn main() {
     {
         let sites: Vec<(&str, &str)> = vec![
             ("a-stmt", "app.emit(\"a-stmt\", 1u32).unwrap();"),
+            ("/leading/slash", "app.emit(\"/leading/slash\", 1u32).ok();"), ("trailing/slash/", "app.emit(\"trailing/slash/\", 1u32).ok();"), ("//double", "app.emit(\"//double\", 1u32).ok();"),
             ("a-await-unwrap", "app.emit(\"a-await-unwrap\", 1u32).await.unwrap();"),
             ("a-await-ok", "window.emit_to(\"main\", \"a-await-ok\", 1u32).await.ok();"),
             ("a-await-map-err-try", "app.emit(\"a-await-map-err-try\", 1u32).await.map_err(|e| e.to_string())?;"),
@@ -780,6 +781,7 @@ fn main() {
             // functions carrying cfg / other attributes and qualifiers
             ("n-closure", ""), ("n-async-block-in-call", ""), ("n-unsafe-block", ""), ("n-if-let", ""), ("n-else-if", ""), ("n-while-let", ""), ("n-match-guard", ""), ("n-block-expr", ""), ("n-paren", ""), ("n-async-await", ""),
             ("g-vec-of-param", ""), ("g-opt-of-param", ""), ("g-tuple-of-param", ""), ("l-lifetime-only", ""), ("l-const-only", ""),
+            ("d-rest-first", ""), ("d-rest-last", ""), ("d-rest-tail", ""),
             ("u-vec-infer", ""), ("u-map-array", ""), ("u-tuple-array", ""), ("u-vec-array", ""),
             ("z-sync-status", ""), ("z-tags", ""), ("t-typed-late-init", ""), ("t-typed-late-init-2", ""), ("s-path-struct", ""), ("s-path-struct-2", ""), ("s-bare-struct", ""),
             ("g-letter-in-name", ""), ("g-letter-in-name-2", ""), ("v-typed-first", ""), ("v-untyped-after-typed", ""),
@@ -830,6 +832,7 @@ fn main() {
             #[derive(Serialize, Clone)]\npub struct LogLine<'a> { pub text: &'a str }\n#[derive(Serialize, Clone)]\npub struct Buffer<const N: usize> { pub used: u32 }\n\
             pub fn borrowed(app: &tauri::AppHandle, line: LogLine<'_>, buf: Buffer<16>) { app.emit(\"l-lifetime-only\", line).ok(); app.emit(\"l-const-only\", buf).ok(); }\n\
             pub fn partly_unprintable(app: &tauri::AppHandle, src: Vec<Player>) { let items: Vec<_> = src.into_iter().collect(); app.emit(\"u-vec-infer\", items).ok(); let m: HashMap<String, [u32; 3]> = HashMap::new(); app.emit(\"u-map-array\", m).ok(); let t: (Player, [u8; 4]) = todo!(); app.emit(\"u-tuple-array\", t).ok(); let v: Vec<[f64; 3]> = vec![]; app.emit(\"u-vec-array\", v).ok(); }\n\
+            pub fn destructured(app: &tauri::AppHandle, pair: (Player, ScanReport), triple: (u8, u16, u32)) { let (first, .., last): (Player, ScanReport) = pair; let (.., tail): (u8, u16, u32) = triple; let (head, ..) = (1u8, 2u8); let [a0, .., a9]: [u8; 4] = [1, 2, 3, 4]; app.emit(\"d-rest-first\", first).ok(); app.emit(\"d-rest-last\", last).ok(); app.emit(\"d-rest-tail\", tail).ok(); let _ = (head, a0, a9); }\n\
             pub fn struct_exprs(app: &tauri::AppHandle) { app.emit(\"s-path-struct\", crate::Player { id: 1 }).ok(); app.emit(\"s-path-struct-2\", self::Player { id: 2 }).ok(); app.emit(\"s-bare-struct\", Player { id: 3 }).ok(); }\n\
             pub fn late_init(app: &tauri::AppHandle, flag: bool) { let status: Player; if flag { status = Player { id: 1 }; } else { status = Player { id: 2 }; } app.emit(\"t-typed-late-init\", status.clone()).ok(); let count: u32; count = 3; app.emit(\"t-typed-late-init-2\", count).ok(); }\n\
             pub fn typed_lets(app: &tauri::AppHandle, state: Holder) {\n\
@@ -875,6 +878,7 @@ fn main() {
                     ("r-mixed", "unknown"), ("r-repeat", "number"),
                     ("g-letter-in-name", "types.ScanReport"), ("g-letter-in-name-2", "types.Ticket"), ("v-typed-first", "types.Player"), ("v-untyped-after-typed", "unknown"),
                     ("g-vec-of-param", "unknown"), ("g-opt-of-param", "unknown"), ("g-tuple-of-param", "unknown"), ("l-lifetime-only", "types.LogLine || unknown"), ("l-const-only", "types.Buffer || unknown"),
+                    ("d-rest-first", "unknown || types.Player"), ("d-rest-last", "unknown || types.ScanReport"), ("d-rest-tail", "unknown || number"),
                     ("u-vec-infer", "unknown"), ("u-map-array", "unknown || Record<string, number[]>"), ("u-tuple-array", "unknown || [types.Player, number[]]"), ("u-vec-array", "unknown || number[][]"),
                     ("s-path-struct", "types.Player"), ("s-path-struct-2", "types.Player"), ("s-bare-struct", "types.Player"),
                     ("t-typed-late-init", "types.Player"), ("t-typed-late-init-2", "number"), ("z-sync-status", "unknown"), ("z-tags", "types.TagOnlyInSets[]")];
@@ -938,7 +942,7 @@ fn main() {
             ("one-file-rotated", vec![("lib.rs".to_string(), format!("{}{}{}", hdr, items[4..].join(""), items[..4].join("")))]),
             ("one-file-interleaved", vec![("lib.rs".to_string(), format!("{}{}", hdr, [8usize, 0, 6, 9, 1, 2, 7, 3, 4, 5].iter().map(|i| items[*i].clone()).collect::<Vec<_>>().join("")))]),
             ("comments-inside-attributes", vec![("lib.rs".to_string(), format!("{}{}{}", hdr, items[..9].join(""), commented_row))]),
-            ("with-noise", vec![("lib.rs".to_string(), format!("{}// comment\n\n\n{}", hdr, items.iter().map(|s| format!("/* noise */\n{}\n\npub fn unrelated_{}() {{}}\n", s, s.len())).collect::<Vec<_>>().join("")))]),
+            ("with-noise", vec![("lib.rs".to_string(), format!("{}// comment\n\n\n{}", hdr, items.iter().map(|s| format!("/* noise */\n// TODO: drop this once the @generated client lands (DO NOT EDIT? no: hand written) #[tauri::command]\n{}\n\npub fn unrelated_{}() {{}}\n", s, s.len())).collect::<Vec<_>>().join("")))]),
         ];
         for mode in ["none", "zod"] {
             let mut reference: Option<(String, BTreeMap<String, Vec<String>>)> = None;
@@ -1099,6 +1103,9 @@ fn main() {
             ("f_range_neg", "#[validate(range(min = -10, max = -1.5))]", "f64", false, false, vec![".min(-10", ".max(-1.5"], vec![]),
             ("f_range_swapped", "#[validate(range(min = 10, max = 1))]", "i32", false, false, vec![".min(10", ".max(1"], vec![]),
             ("f_len_vec", "#[validate(length(min = 1, max = 3))]", "Vec<String>", false, false, vec![".min(1", ".max(3"], vec![]),
+            ("f_msg_double_space", "#[validate(length(min = 8, message = \"Too short.  Use 8 or more\"))]", "String", false, false, vec![".min(8", "Too short.  Use 8 or more"], vec![]),
+            ("f_msg_tab", "#[validate(range(min = 18, message = \"Adults only:\t18\"))]", "u32", false, false, vec![".min(18"], vec!["Adults only: 18"]),
+            ("f_msg_wide", "#[validate(length(max = 3, message = \"a   b    c\"))]", "String", false, false, vec![".max(3", "a   b    c"], vec![]),
             ("f_code_before_msg", "#[validate(length(min = 1, max = 280, code = \"message_length\", message = \"1 to 280 characters\"))]", "String", false, false, vec![".min(1", ".max(280", "1 to 280 characters"], vec![]),
             ("f_code_after_msg", "#[validate(range(min = 1, message = \"at least one\", code = \"message_min\"))]", "u32", false, false, vec![".min(1", "at least one"], vec!["message_min"]),
             ("f_len_matrix", "#[validate(length(min = 1, max = 3))]", "Vec<Vec<String>>", false, false, vec!["z.array(z.array(z.string()))", ".min(1", ".max(3"], vec!["z.string()).min(", "z.string()).max("]),
@@ -1157,6 +1164,7 @@ fn main() {
             ("r_unit", "()", "void"), ("r_res_unit", "Result<(), String>", "void"), ("r_res_tuple", "Result<(String, HashMap<String, u32>), String>", "[string, Record<string, number>]"),
             ("r_opt_t1", "Option<(u8,)>", "[number] | null"), ("r_t1", "(String,)", "[string]"), ("r_vec", "Vec<Leaf>", "types.Leaf[]"), ("r_ref", "&'static str", "string"),
             ("r_opt_tuple_opt", "Option<(String, Option<u32>)>", "[string, number | null] | null"), ("r_res_opt_tuple_opt", "Result<Option<(String, Option<u32>)>, String>", "[string, number | null] | null"),
+            ("r_shift_arr", "Result<[u8; 1 << 4], String>", "number[]"), ("r_shift_tuple", "([u8; 1 << 4], String)", "[number[], string]"), ("r_shift_map", "HashMap<String, ([u16; 8 >> 1], bool)>", "Record<string, [number[], boolean]>"),
             ("r_opt_vec_tuple_opt", "Option<Vec<(String, Option<u32>)>>", "[string, number | null][] | null"), ("r_opt_map_opt", "Option<HashMap<String, Option<u32>>>", "Record<string, number | null> | null"),
         ];
         let cmds: String = returns.iter().map(|(n, t, _)| format!("#[tauri::command]\npub fn {}() -> {} {{ todo!() }}\n", n, t)).collect();
@@ -1579,10 +1587,16 @@ fn main() {
             #[derive(Serialize, Deserialize)]\npub struct Sample {{ pub v: u32 }}\n\
             pub enum Phase {{ Internal }}\n\
             pub mod api {{\n    use serde::{{Serialize, Deserialize}};\n    #[derive(Serialize, Deserialize)]\n    pub enum Phase {{ Start, Stop }}\n    #[derive(Serialize, Deserialize)]\n    pub struct Report {{ pub phase: Phase, pub last: Option<super::Sample> }}\n}}\n\
-            #[tauri::command]\npub fn telemetry() -> Telemetry {{ todo!() }}\n#[tauri::command]\npub fn report() -> api::Report {{ todo!() }}\n", HDR);
+            #[tauri::command]\npub fn telemetry() -> Telemetry {{ todo!() }}\n#[tauri::command]\npub fn report() -> api::Report {{ todo!() }}\n\
+            pub mod shapes {{\n    use serde::{{Serialize, Deserialize}};\n    #[derive(Serialize, Deserialize)]\n    pub struct Point {{ pub x: f32 }}\n    #[derive(Serialize, Deserialize)]\n    pub struct Path {{ pub points: Vec<Point>, pub closed: bool }}\n    #[derive(Serialize, Deserialize)]\n    pub struct Url {{ pub host: String }}\n    #[derive(Serialize, Deserialize)]\n    pub struct Duration {{ pub beats: u32 }}\n}}\n\
+            #[derive(Serialize, Deserialize)]\npub struct Sketch {{ pub outline: Vec<crate::shapes::Path>, pub home: shapes::Url, pub length: Option<shapes::Duration> }}\n\
+            #[tauri::command]\npub fn sketch(first: shapes::Path) -> Sketch {{ todo!() }}\n\
+            #[cfg(not(test))]\npub mod backend {{\n    use serde::{{Serialize, Deserialize}};\n    #[derive(Serialize, Deserialize)]\n    pub struct DeviceInfo {{ pub firmware: Firmware }}\n    #[derive(Serialize, Deserialize)]\n    pub struct Firmware {{ pub version: String }}\n}}\n\
+            #[cfg(feature = \"latest-api\")]\npub mod latest {{\n    use serde::{{Serialize, Deserialize}};\n    #[derive(Serialize, Deserialize)]\n    pub struct Capabilities {{ pub level: u8 }}\n}}\n\
+            #[tauri::command]\npub fn device() -> backend::DeviceInfo {{ todo!() }}\n#[tauri::command]\npub fn capabilities() -> latest::Capabilities {{ todo!() }}\n", HDR);
         let dir = root.join("shadowed/src");
         write_files(&dir, &[("lib.rs".to_string(), src)]);
-        let tys = ["Telemetry", "Sample", "Phase", "Report"];
+        let tys = ["Telemetry", "Sample", "Phase", "Report", "Point", "Path", "Url", "Duration", "Sketch", "DeviceInfo", "Firmware", "Capabilities"];
         for mode in ["none", "zod"] {
             let files = generate(&dir, &root.join(format!("shadowed/out_{}", mode)), mode);
             rep.case("mentioned_project_types_are_declared", &format!("project=shadowed mode={}", mode), &|| {
@@ -1594,13 +1608,25 @@ fn main() {
             rep.case("type_references_resolve", &format!("project=shadowed mode={}", mode), &|| references_resolve(files.as_ref().map_err(|e| e.clone())?, &tys));
         }
     }
+    // ============================================================ C09: project types behind Box / Rc / Arc: if the tool reads through the pointer it must also order the schemas
+    {
+        let src = format!("{}#[derive(Serialize, Deserialize, Clone)]\npub struct Account {{ pub profile: Box<Profile>, pub zone: Option<std::sync::Arc<Zone>>, pub history: Vec<std::rc::Rc<Visit>> }}\n\
+            #[derive(Serialize, Deserialize, Clone)]\npub struct Profile {{ pub name: String }}\n#[derive(Serialize, Deserialize, Clone)]\npub struct Zone {{ pub id: u32 }}\n#[derive(Serialize, Deserialize, Clone)]\npub struct Visit {{ pub at: u64 }}\n\
+            #[tauri::command]\npub fn account(p: Profile, z: Zone, v: Visit) -> Account {{ todo!() }}\n", HDR);
+        let dir = root.join("boxed/src");
+        write_files(&dir, &[("lib.rs".to_string(), src)]);
+        let files = generate(&dir, &root.join("boxed/out_zod"), "zod");
+        rep.case("schemas_defined_before_use", "project=boxed", &|| schemas_defined_before_use(files.as_ref().map_err(|e| e.clone())?.get("types.ts").ok_or("no types.ts")?));
+    }
     // ============================================================ C01 / C05 / C07 / C02: arrays and slices are sequences
     {
         let src = format!("{}use tauri::Emitter;\nuse tauri::ipc::Channel;\n#[derive(Serialize, Deserialize, Clone)]\npub struct Cell {{ pub id: u32 }}\n#[derive(Serialize, Deserialize, Clone)]\npub struct OnlyInArray {{ pub id: u32 }}\n#[derive(Serialize, Deserialize, Clone)]\npub struct OnlyInParam {{ pub id: u32 }}\n\
             #[derive(Serialize, Deserialize, Clone)]\npub struct Grid {{ pub cells: [[Cell; 3]; 3], pub key: [u8; 32], pub pairs: Vec<[(String, OnlyInArray); 2]>, pub opt: Option<[bool; 2]> }}\n\
             #[tauri::command]\npub fn grid(app: tauri::AppHandle, seed: [u8; 4], ch: Channel<[Cell; 2]>, names: &[String], extra: [OnlyInParam; 1]) -> Result<[Grid; 2], String> {{ todo!() }}\n\
             #[derive(Serialize, Deserialize, Clone)]\npub struct Mesh {{ pub points: &'static [[f32; 3]], pub tagged: &'static [(String, [u8; 4])], pub rows: Vec<[[u8; 2]; 2]> }}\n\
-            #[tauri::command]\npub fn mesh(points: &[[f32; 3]]) -> Mesh {{ todo!() }}\n", HDR);
+            #[tauri::command]\npub fn mesh(points: &[[f32; 3]]) -> Mesh {{ todo!() }}\n\
+            pub const KEY_LEN: usize = 32;\n#[tauri::command]\npub fn digest(seed: [u8; 1 << 4], pair: ([u16; KEY_LEN >> 1], String)) -> Result<[u8; 1 << 4], String> {{ todo!() }}\n\
+            #[tauri::command]\npub fn digests() -> Result<([u8; 2 * KEY_LEN], Vec<[u8; {{ KEY_LEN }}]>), String> {{ todo!() }}\n", HDR);
         let dir = root.join("arrays/src");
         write_files(&dir, &[("lib.rs".to_string(), src)]);
         let tys = ["Cell", "OnlyInArray", "OnlyInParam", "Grid", "Mesh"];
